@@ -25,7 +25,8 @@ ASSUMPTIONS = ["(discharged) parse_ser is now the theorem C09_parse_ser: Syn.Par
                "Rust usize/u64 arithmetic as written into the model (no overflow below 2^64)"]
 RULE = ("base files written by the specification-side writer (classic table / xref stream, compressed objects in an object stream, "
         "bytes before the header, generations > 0, one or two revisions, optional /Info), histories of 1-25 operations over "
-        "{create, update, promise, fulfil, resolve, get, save} with 1-3 saves, failing saves induced by an unfulfilled promise or an "
+        "{create, create of a value whose conversion creates one / two further objects through the updater (ops N, M: harness types Nested, Nested2), "
+        "update, promise, fulfil, resolve, get, save} with 1-3 saves, failing saves induced by an unfulfilled promise or an "
         "in-file stream value, references drawn from base objects of every storage form and from the references handed out; every "
         "case cached and uncached; judged against the overlay-map specification using the very references the implementation returned; "
         "storage_save_to (no model): histories with and without a save under an open promise on a File opened through FileOptions, saved "
